@@ -1,7 +1,25 @@
 """C12 — Join merges all inputs: nothing lost or duplicated, per-input order kept, closes after all inputs.
-Tie: H lock-step with k inputs (0..4), interleaved sends, closes and receives."""
-import json
+Tie: H lock-step with k inputs (0..4), interleaved sends, closes and receives.
+Direct oracle additionally on: wide fan-in (k up to 65), bursts (moves made back to back, without waiting for
+quiescence) against a full output buffer, and Join called with a spread slice that the caller overwrites right away."""
+import json, re
 import vlib, lockstep as ls
+
+# k up to which `oracle lockstep` is asked (its state set grows with the number of copiers); wider scripts and scripts
+# with burst moves (which PoolRun.parseMove does not know) go through the direct oracle only
+MODEL_MAX_K = 8
+MID_K = [5, 6, 7, 8]
+WIDE_K = [17, 18, 20, 23, 31, 32, 33, 40, 47, 48, 49]
+WIDE_K_THOROUGH = WIDE_K + [16, 24, 63, 64, 65]
+MODES = ["pure", "reuse", "reuse", "reusenil"]   # how the harness treats the slice it spreads into Join (join_test.go)
+
+
+HOW = {"reuse": " (Join was called as Join(ctx, s...) and the caller then overwrote s with other channels)",
+       "reusenil": " (Join was called as Join(ctx, s...) and the caller then overwrote s with nil channels)"}
+
+
+def cfg_line(k, caps, mode):
+    return "stage=Join k=%d cap=0 caps=%s%s" % (k, ",".join(map(str, caps)), "" if mode == "pure" else " mode=" + mode)
 
 
 def gen_script(rng, maxlen=8):
@@ -9,7 +27,7 @@ def gen_script(rng, maxlen=8):
     n = rng.randrange(0, maxlen + 1) if k else 0
     xs = rng.sample(range(1, 60), n)
     caps = [rng.choice([0, 1, 2]) for _ in range(k)]
-    cfg = "stage=Join k=%d cap=0 caps=%s" % (k, ",".join(map(str, caps)))
+    cfg = cfg_line(k, caps, rng.choice(MODES))
     seqs = [[] for _ in range(k)]
     for x in xs:
         seqs[rng.randrange(k)].append(x)
@@ -19,53 +37,248 @@ def gen_script(rng, maxlen=8):
     return cfg + " | " + " ".join(body + ["r0"] * (n + 3) + ["z"])
 
 
+def gen_wide(rng, ks=WIDE_K):
+    """wide fan-in: many inputs, most of them carrying one or two elements"""
+    k = rng.choice(ks)
+    caps = [rng.choice([0, 1, 2]) for _ in range(k)]
+    lens = [rng.choice([0, 1, 1, 1, 2, 2, 3]) for _ in range(k)]
+    xs = rng.sample(range(1, 1000), sum(lens))
+    sends, p = [], 0
+    for j in range(k):
+        sends.append(["s%d:%d" % (j, x) for x in xs[p:p + lens[j]]] + ["c%d" % j])
+        p += lens[j]
+    n = len(xs)
+    recvs = ["r0"] * rng.randrange(0, n + 2)
+    body = ls.interleave(rng, sends + [recvs])
+    return cfg_line(k, caps, rng.choice(MODES)) + " | " + " ".join(body + ["r0"] * (n + 3) + ["z"])
+
+
+def gen_burst(rng):
+    """the consumer stalls until the output buffer (capacity k) is full, then one input receives a burst of elements
+    (made back to back: the copier meets them all at once), possibly a second burst, then everything is drained"""
+    k = rng.randrange(1, 5)
+    caps = [rng.choice([0, 1, 2]) for _ in range(k)]
+    vals = iter(rng.sample(range(1, 200), 40))
+    moves = []
+    # a few ordinary moves first (sends and receives at quiescent points)
+    for _ in range(rng.randrange(0, 4)):
+        moves.append(rng.choice(["r0", "s%d:%d" % (rng.randrange(k), next(vals))]))
+    # stall: k (+0..2) sends with no receive fill the output buffer
+    for _ in range(k + rng.randrange(0, 3)):
+        moves.append("s%d:%d" % (rng.randrange(k), next(vals)))
+    nb = rng.choice([1, 1, 2])
+    for b in range(nb):
+        j = rng.randrange(k)
+        m = rng.randrange(2, 6)
+        caps[j] = max(caps[j], m + rng.choice([0, 0, 1]))   # room for the whole burst in the input's own buffer
+        moves.append("b" + ",".join("s%d:%d" % (j, next(vals)) for _ in range(m)))
+        if b + 1 < nb and rng.random() < 0.5:
+            moves.append("r0")
+    # the rest: a few more sends, the closes, and the drain, interleaved
+    tail = [["s%d:%d" % (j, next(vals)) for _ in range(rng.randrange(0, 2))] + ["c%d" % j] for j in range(k)]
+    moves += ls.interleave(rng, tail + [["r0"] * rng.randrange(0, 8)])
+    return cfg_line(k, caps, rng.choice(MODES)) + " | " + " ".join(moves + ["r0"] * 30 + ["z"])
+
+
+def gen_grouped(rng):
+    """an ordinary script in which runs of consecutive moves are made back to back (arrival orders that moves at
+    quiescent points cannot produce: several inputs and the consumer act while the copiers are running)"""
+    s = gen_script(rng, maxlen=10)
+    cfg, mv = s.split(" | ")
+    mv = mv.split()
+    body, tail = mv[:-1], mv[-1:]
+    out, i = [], 0
+    while i < len(body):
+        if rng.random() < 0.4:
+            g = rng.randrange(2, 6)
+            out.append("b" + ",".join(body[i:i + g]))
+            i += g
+        else:
+            out.append(body[i])
+            i += 1
+    return cfg + " | " + " ".join(out + ["r0", "r0"] + tail)
+
+
+def has_burst(script):
+    return any(m[0] == "b" for m in script.split("|", 1)[1].split())
+
+
+def direct_only(script):
+    return has_burst(script) or int(ls.parse_cfg(script).get("k", 0)) > MODEL_MAX_K
+
+
+def flat_steps(tr):
+    """(move, result, output-buffer length seen after the move or None) with burst moves expanded into their sub-moves"""
+    out = []
+    for mv, res, lens in tr.steps:
+        olen = int(lens.split(";")[1] or 0) if ";" in lens else None
+        if mv[0] == "b":
+            subs = [s for s in mv[1:].split(",") if s and s[0] != "b"]
+            rs = res.split(",")
+            for i, (s, r) in enumerate(zip(subs, rs)):
+                out.append((s, r, olen if i == len(subs) - 1 else None))
+        else:
+            out.append((mv, res, olen))
+    return out
+
+
+def observed(tr):
+    """sent per input, values received, inputs closed, whether the output was seen closed — from the flattened steps"""
+    sent, got, closed_in, out_closed = {}, [], set(), False
+    for mv, res, _ in flat_steps(tr):
+        if mv[0] == "s" and res == "ok":
+            j, v = mv[1:].split(":")
+            sent.setdefault(int(j), []).append(int(v))
+        elif mv[0] == "c" and res == "ok":
+            closed_in.add(int(mv[1:]))
+        elif mv == "r0":
+            if res == "closed":
+                out_closed = True
+            elif re.match(r"^v-?\d+$", res):
+                got.append(int(res[1:]))
+    return sent, got, closed_in, out_closed
+
+
 def evaluate(script, tr):
     k = int(tr.cfg["k"])
     vs = []
     key = {"stage": "Join", "k": k}
-    got = tr.values(0)
-    allsent = [x for xs in tr.sent.values() for x in xs]
-    for j, xs in tr.sent.items():
+    sent, got, closed_in, out_closed = observed(tr)
+    allsent = [x for xs in sent.values() for x in xs]
+    how = HOW.get(tr.cfg.get("mode", "pure"), "")
+    for j, xs in sent.items():
         sub = [v for v in got if v in xs]
         if sub != xs[:len(sub)]:
-            vs.append(vlib.Violation("impl", "Join: input %d sent %s but its elements came out as %s" % (j, xs, sub), case=script, expected=xs, got=sub, key=key))
+            vs.append(vlib.Violation("impl", "Join: input %d sent %s but its elements came out as %s%s" % (j, xs, sub, how), case=script, expected=xs, got=sub, key=key))
     if len(set(got)) != len(got) or any(v not in allsent for v in got):
-        vs.append(vlib.Violation("impl", "Join delivered a duplicate or invented element: %s (sent %s)" % (got, allsent), case=script, key=key))
+        vs.append(vlib.Violation("impl", "Join delivered a duplicate or invented element: %s (sent %s)%s" % (got, allsent, how), case=script, key=key))
     # closes after - and only after - every input has closed
     nclosed = 0
-    for mv, res, _ in tr.steps:
+    for mv, res, _ in flat_steps(tr):
         if mv[0] == "c" and res == "ok":
             nclosed += 1
         if mv == "r0" and res == "closed" and nclosed < k:
-            vs.append(vlib.Violation("impl", "Join: output closed while %d of %d inputs were still open" % (k - nclosed, k), case=script, key=key))
+            vs.append(vlib.Violation("impl", "Join: output closed while %d of %d inputs were still open%s" % (k - nclosed, k, how), case=script, key=key))
             break
-    if len(tr.closed_in) == k:
-        if 0 not in tr.closed:
-            vs.append(vlib.Violation("impl", "Join: output not closed after all %d inputs closed and the output was drained" % k, case=script, key=key))
+    if len(closed_in) == k:
+        if not out_closed:
+            vs.append(vlib.Violation("impl", "Join: output not closed after all %d inputs closed and the output was drained%s" % (k, how), case=script, key=key))
         elif sorted(got) != sorted(allsent):
-            vs.append(vlib.Violation("impl", "Join lost elements: sent %s, delivered %s" % (sorted(allsent), sorted(got)), case=script, key=key))
+            vs.append(vlib.Violation("impl", "Join lost elements: sent %s, delivered %s%s" % (sorted(allsent), sorted(got), how), case=script, key=key))
         for pos, n in tr.census:
-            if 0 in tr.closed and n != 0:
+            if out_closed and n != 0:
                 vs.append(vlib.Violation("impl", "Join: %d goroutine(s) alive after close" % n, case=script, key=key))
     return vs
 
 
+def judge_direct(ctx, scripts, binp):
+    """ls.judge without the model comparison: run the scripts on the implementation, crash attribution, direct oracle"""
+    obs, crashes = ls.run_scripts(ctx, binp, scripts)
+    traces = []
+    for i, s in enumerate(scripts):
+        ctx.hist("stage", "pipe.Join")
+        if i in crashes:
+            txt = crashes[i]
+            cls = "deadlock" if "deadlock" in txt else ("panic" if "panic" in txt else "crash")
+            m = re.search(r"panic: ([^\n]*)", txt)
+            ctx.violations.append(vlib.Violation("impl", "pipe.Join: the library crashed: %s" % (m.group(1) if m else cls), case=s,
+                                                 got=txt[-1500:], key={"stage": "Join", "pkg": "pipe", "class": cls}))
+            traces.append(None)
+            continue
+        if obs[i] is None:
+            ctx.broken.append({"kind": "correspondence", "detail": "no observation for script", "case": s})
+            traces.append(None)
+            continue
+        tr = ls.Trace(s, obs[i])
+        traces.append(tr)
+        if not tr.complete:
+            ctx.broken.append({"kind": "correspondence", "detail": "observation line does not match the script", "case": s, "impl": " ".join(obs[i])[:2000]})
+            continue
+        ctx.cov["direct_oracle_only"] = ctx.cov.get("direct_oracle_only", 0) + 1
+        ctx.violations += evaluate(s, tr)
+        if tr.end and tr.end != (0, 0):
+            ctx.violations.append(vlib.Violation("impl", "pipe.Join: %d output(s) never closed / %d goroutine(s) left after cancel, close and drain" % (tr.end[0], tr.end[1]),
+                                                 case=s, key={"stage": "Join", "class": "leak"}))
+        if i % 53 == 0:
+            ctx.sample({"script": s[:600], "observations": " ".join(obs[i])[:1500], "model": "not asked (direct oracle only)"}, limit=10)
+    if -1 in crashes:
+        ctx.broken.append({"kind": "correspondence", "detail": "harness failed: " + crashes[-1][-800:]})
+    return traces
+
+
+def account(ctx, kinds, scripts, trs):
+    for kind, s, tr in zip(kinds, scripts, trs):
+        if tr is None:
+            continue
+        sent, got, closed_in, out_closed = observed(tr)
+        k = int(tr.cfg["k"])
+        ctx.hist("k", k)
+        ctx.hist("kind", kind)
+        ctx.hist("call", {"pure": "spread slice left alone", "reuse": "spread slice overwritten with foreign channels",
+                          "reusenil": "spread slice overwritten with nil"}[tr.cfg.get("mode", "pure")])
+        ctx.hist("model_compared", "no" if direct_only(s) else "yes")
+        if direct_only(s):
+            ctx.hist("completed_sends", sum(len(v) for v in sent.values()))
+        nontrivial = len([1 for v in sent.values() if v]) >= 2
+        if has_burst(s):
+            # a burst counts when >= 2 of its sends on ONE input completed while the output buffer was full before it
+            full_before, hit, prev = False, False, None
+            for mv, res, lens in tr.steps:
+                olen = int(lens.split(";")[1] or 0) if ";" in lens else None
+                if mv[0] == "b":
+                    per = {}
+                    for sm, r in zip(mv[1:].split(","), res.split(",")):
+                        if sm[0] == "s" and r == "ok":
+                            per[sm[1:].split(":")[0]] = per.get(sm[1:].split(":")[0], 0) + 1
+                    if per and max(per.values()) >= 2:
+                        ctx.hist("burst_sends_on_one_input", max(per.values()))
+                        if prev is not None and prev >= k:
+                            hit = True
+                prev = olen
+            ctx.hist("burst_against_full_output", "yes" if hit else "no")
+            nontrivial = hit if kind == "burst" else nontrivial
+        ctx.count(s, nontrivial=nontrivial)
+
+
 def run(ctx):
-    ctx.cov["rule"] = ("script = Join over k in 0..4 inputs with per-input capacities 0..2, distinct elements distributed over the inputs, random interleaving of "
-                       "sends, closes and receives, final drain; non-trivial = k >= 2 and at least two inputs carried an element")
+    ctx.cov["rule"] = ("script = Join over k inputs with per-input capacities, distinct elements distributed over the inputs, random interleaving of "
+                       "sends, closes and receives, final drain. kind=random: k in 0..4, capacities 0..2 (non-trivial = at least two inputs carried an element); "
+                       "kind=mid: k in 5..8, kind=wide: k in 17..49 (thorough: 16..65), most inputs carrying 1-2 elements (non-trivial likewise); kind=burst: k in 1..4, the consumer "
+                       "stalls until the output buffer is full, then 2..5 sends on one input are made back to back, then drain (non-trivial = at least two sends "
+                       "of one burst completed on one input while the output buffer was full); kind=grouped: a random script whose consecutive moves are "
+                       "grouped into back-to-back bursts. call: in 3 of 4 scripts the harness overwrites the slice it spread into Join (foreign closed channels "
+                       "with marked values / nil) right after Join returned, under GOMAXPROCS(1); the property is evaluated against the channels Join was called with. "
+                       "MODEL COMPARISON: scripts with k <= %d and without burst moves are also checked against `oracle lockstep` (mode is invisible to it); scripts "
+                       "with k > %d or with burst moves (the PoolRun driver has no burst move and its state set grows with k) go through the DIRECT ORACLE ONLY "
+                       "(coverage.direct_oracle_only counts them; they are not in traces_validated_against_impl)" % (MODEL_MAX_K, MODEL_MAX_K))
     ctx.assumptions += ls.ASSUME
     ls.regen_stages(ctx, pipe=True, fork=False)
     ctx.prove()
     if ctx.thorough():
         ctx.leanchecker()
+    T = 10 if ctx.thorough() else 1
     if ctx.replay:
-        scripts = [json.load(open(ctx.replay))["case"]]
+        groups = [("replay", [json.load(open(ctx.replay))["case"]])]
     else:
-        scripts = [gen_script(ctx.rng) for _ in range(6000 if ctx.thorough() else 600)]
-    trs = ls.judge(ctx, scripts, evaluate, record=False)
-    for s, tr in zip(scripts, trs):
-        if tr is not None:
-            ctx.hist("k", tr.cfg["k"])
-            ctx.count(s, nontrivial=len([1 for v in tr.sent.values() if v]) >= 2)
+        groups = [("random", [gen_script(ctx.rng) for _ in range(600 * T)]),
+                  ("mid", [gen_wide(ctx.rng, MID_K) for _ in range(30 * T)]),
+                  ("wide", [gen_wide(ctx.rng, WIDE_K_THOROUGH if ctx.thorough() else WIDE_K) for _ in range(40 * T)]),
+                  ("burst", [gen_burst(ctx.rng) for _ in range(120 * T)]),
+                  ("grouped", [gen_grouped(ctx.rng) for _ in range(80 * T)])]
+    binp, err = ls.build(ctx)
+    if binp is None:
+        ctx.broken.append({"kind": "correspondence", "detail": "lock-step harness does not build against /repo/pipe", "log": err})
+        return
+    # one run per path: the scripts the model can follow (ls.judge) and the ones for the direct oracle only
+    tagged = [(kind, s) for kind, scripts in groups for s in scripts]
+    for sel, fn in ((False, lambda ss: ls.judge(ctx, ss, evaluate, record=False, binp=binp)), (True, lambda ss: judge_direct(ctx, ss, binp))):
+        part = [(kind, s) for kind, s in tagged if direct_only(s) == sel]
+        if part:
+            account(ctx, [k for k, _ in part], [s for _, s in part], fn([s for _, s in part]))
+            ctx.note("%d scripts %s" % (len(part), "through the direct oracle only" if sel else "against the model and the direct oracle"))
+    # crashes are reported by the shared machinery without the calling convention: say how Join was called
+    for v in ctx.violations:
+        if v.case and "Join was called" not in v.what:
+            v.what += HOW.get(ls.parse_cfg(v.case).get("mode", "pure"), "")
     if ctx.thorough() and not ctx.replay:
         ls.stress(ctx, ["join"], 15, {"stage": "Join"})
